@@ -84,6 +84,11 @@ func (s *session) bigScript(b *bigData) {
 				s.stored[of.Ref] = of.Data
 			}
 			s.r.Note("direct_oversize_observed", s.label+":"+res)
+			if err != nil {
+				// whether a store called directly applies the cap itself is not decided here, but a store
+				// that answers with a refusal must not keep anything of the refused upload
+				s.directRefusedNoTrace(of, err)
+			}
 		}
 		do("flip", "", "plain")
 		do("under", "", "plain")
